@@ -100,7 +100,9 @@ Definition is_zp (v : var) : bool := match v_mem v with MZeropage => true | _ =>
 
 Open Scope N_scope.
 
-Definition asm_sel (sch : scheme) (m : mnem) (e : exprtype) (high : bool) : asm_result :=
+(** [asm_sel0]: the selection proper, every operand kind; it is the whole of [asm()] before the
+    "Bad left value" fix (kept as the pre-fix function: regression witnesses are stated on it) *)
+Definition asm_sel0 (sch : scheme) (m : mnem) (e : exprtype) (high : bool) : asm_result :=
   let cycles := base_cyc m in
   match e with
   | ELabel l =>
@@ -216,6 +218,28 @@ Definition asm_sel (sch : scheme) (m : mnem) (e : exprtype) (high : bool) : asm_
           end
   end.
 
+(** stores and read-modify-write instructions: the mnemonics that write to their operand *)
+Definition writes_mem (m : mnem) : bool :=
+  match m with STA | STX | STY | INC | DEC | ASL | LSR | ROL | ROR => true | _ => false end.
+
+(** the printed operand starts with '#' ([print_popnd]) *)
+Definition is_imm_popnd (p : popnd) : bool :=
+  match p with PNum _ | PLo _ _ | PHi _ _ => true | _ => false end.
+
+(** [asm()]: after the operand text has been computed, and before the instruction is appended, an
+    immediate operand ('#...': the name of an array, &x, the "#0" high byte of an 8-bit object) is
+    refused for the mnemonics that write to their operand.  The emitted mnemonic differs from the
+    requested one only in the [EA] arm (TAX / TAY, no operand), so testing either is the same
+    ([asm_sel_guard_requested] in Proofs/AsmSelFacts.v). *)
+Definition asm_sel (sch : scheme) (m : mnem) (e : exprtype) (high : bool) : asm_result :=
+  match asm_sel0 sch m e high with
+  | AEmit m' sg em =>
+      if writes_mem m' && is_imm_popnd (e_op em)
+      then AErr "Bad left value in assignement"
+      else AEmit m' sg em
+  | r => r
+  end.
+
 (** the AsmInstruction appended to the function *)
 Definition instr_of (prot : bool) (m : mnem) (e : emitted) : instr :=
   mkI m (print_popnd (e_op e)) (e_cycles e) (e_alt e) (e_bytes e) prot.
@@ -265,8 +289,9 @@ Definition expr_off_nonneg (e : exprtype) : Prop :=
   match e with EAbsolute _ _ off => (0 <= off)%Z | _ => True end.
 
 (** the rule before the page-boundary fix: the known address is not consulted, the size is
-    decided from the memory class alone.  It is [asm_sel] on the variable with its address
-    forgotten ([beyond_zeropage] is then [false]). *)
+    decided from the memory class alone.  It is [asm_sel0] (the selection without the later
+    "Bad left value" guard, which that version did not have either) on the variable with its
+    address forgotten ([beyond_zeropage] is then [false]). *)
 Definition forget_addr (v : var) : var :=
   mkVar (v_name v) (v_type v) (v_const v) (v_signed v) (v_mem v) (v_size v) None.
 
@@ -279,4 +304,4 @@ Definition forget_addr_e (e : exprtype) : exprtype :=
   end.
 
 Definition asm_sel_old (sch : scheme) (m : mnem) (e : exprtype) (high : bool) : asm_result :=
-  asm_sel sch m (forget_addr_e e) high.
+  asm_sel0 sch m (forget_addr_e e) high.
